@@ -68,12 +68,18 @@ theorem tapps_foldl {α : Type} (f : St → α → St) (h : ∀ s a, (f s a).tap
   | cons a l ih => simp only [List.foldl_cons, ih, h]
 
 
+@[simp] theorem tapps_cerNameAndElect (s : St) (cid : Nat) (h : String) : (cerNameAndElect s cid h).1.tapps = s.tapps := by
+  unfold cerNameAndElect
+  have hf : ∀ (l : List Conn) (s : St), (l.foldl (fun s o => connClose s o.id true) s).tapps = s.tapps :=
+    fun l s => tapps_foldl _ (fun s a => tapps_connClose s a.id true) l s
+  dsimp only
+  repeat (first | rfl | split | simp only [hf, tapps_modConn])
+
+
 @[simp] theorem tapps_receiveCer (s : St) (cid : Nat) (m : AMsg) (info : MsgInfo) :
     (receiveCer s cid m info).1.tapps = s.tapps := by
   unfold receiveCer
-  have hf : ∀ (l : List Conn) (s : St), (l.foldl (fun s o => connClose s o.id true) s).tapps = s.tapps :=
-    fun l s => tapps_foldl _ (fun s a => tapps_connClose s a.id true) l s
-  repeat (first | rfl | split | dsimp only | simp only [tapps_sendMessage, tapps_modConn, tapps_flagReady, tapps_assignPeerConnection, hf])
+  repeat (first | rfl | split | dsimp only | simp only [tapps_sendMessage, tapps_modConn, tapps_flagReady, tapps_assignPeerConnection, tapps_cerNameAndElect])
 
 
 @[simp] theorem tapps_receiveCea (s : St) (cid : Nat) (m : AMsg) : (receiveCea s cid m).1.tapps = s.tapps := by
@@ -342,12 +348,18 @@ theorem deferred_foldl {α : Type} (f : St → α → St) (h : ∀ s a, (f s a).
   | cons a l ih => simp only [List.foldl_cons, ih, h]
 
 
+@[simp] theorem deferred_cerNameAndElect (s : St) (cid : Nat) (h : String) : (cerNameAndElect s cid h).1.deferred = s.deferred := by
+  unfold cerNameAndElect
+  have hf : ∀ (l : List Conn) (s : St), (l.foldl (fun s o => connClose s o.id true) s).deferred = s.deferred :=
+    fun l s => deferred_foldl _ (fun s a => deferred_connClose s a.id true) l s
+  dsimp only
+  repeat (first | rfl | split | simp only [hf, deferred_modConn])
+
+
 @[simp] theorem deferred_receiveCer (s : St) (cid : Nat) (m : AMsg) (info : MsgInfo) :
     (receiveCer s cid m info).1.deferred = s.deferred := by
   unfold receiveCer
-  have hf : ∀ (l : List Conn) (s : St), (l.foldl (fun s o => connClose s o.id true) s).deferred = s.deferred :=
-    fun l s => deferred_foldl _ (fun s a => deferred_connClose s a.id true) l s
-  repeat (first | rfl | split | dsimp only | simp only [deferred_sendMessage, deferred_modConn, deferred_flagReady, deferred_assignPeerConnection, hf])
+  repeat (first | rfl | split | dsimp only | simp only [deferred_sendMessage, deferred_modConn, deferred_flagReady, deferred_assignPeerConnection, deferred_cerNameAndElect])
 
 
 @[simp] theorem deferred_receiveCea (s : St) (cid : Nat) (m : AMsg) : (receiveCea s cid m).1.deferred = s.deferred := by
